@@ -162,7 +162,40 @@ type Exec struct {
 	Idx     int            // index of the next operation
 	Clock   *Clock
 	Dead    string // non-empty when the region could not be (re)created; nothing more can run
+	Hist    []Op   // operations applied so far
 	path    string
+}
+
+// Non-termination watchdog: every go-mc call made through Apply is registered while in flight.
+type inflight struct {
+	start int64
+	e     *Exec
+	op    Op
+}
+
+var inflightTab sync.Map // *Exec -> *inflight
+
+// StartWatchdog calls on (once) when a single operation has been running for more than limit
+// (>= 20 s: five orders of magnitude above a legitimate call). on must end the process.
+func StartWatchdog(limit time.Duration, on func(variant int, hist []Op)) {
+	go func() {
+		for {
+			time.Sleep(2 * time.Second)
+			now := time.Now().UnixNano()
+			var hit *inflight
+			inflightTab.Range(func(_, v any) bool {
+				if f := v.(*inflight); time.Duration(now-f.start) > limit {
+					hit = f
+					return false
+				}
+				return true
+			})
+			if hit != nil {
+				on(hit.e.Variant, append(append([]Op(nil), hit.e.Hist...), hit.op))
+				return
+			}
+		}
+	}()
 }
 
 // Outcome is what one operation returned.
@@ -216,7 +249,10 @@ func (e *Exec) Apply(op Op, logWrites bool) *Outcome {
 	if logWrites {
 		e.Dev.StartLog()
 	}
+	inflightTab.Store(e, &inflight{time.Now().UnixNano(), e, op})
 	withClock(e.Clock, func() { e.apply(op, out) })
+	inflightTab.Delete(e)
+	e.Hist = append(e.Hist, op)
 	out.ClockCalls = e.Clock.Calls
 	if logWrites {
 		out.Writes = e.Dev.TakeLog()
